@@ -234,6 +234,10 @@ def check_write_back(ctx, RS, cr):
               '"the frame is real" (a dict patch may be empty) - the producer tests the type, the consumer the truth value; for a patch {name: {}} the parent then overwrites the child with {}',
               where=loc(cr, cr.node), path=path_str(p or []))
 
+def loc_cls(c, node):
+    return f'{c.module.relpath}:{getattr(node, "lineno", "?")}'
+
+
 def check_residue(ctx, rule):
     """the per-thread restore state: a threading.local whose every field that a load reads is unconditionally re-initialised when a load is entered,
     whose entry beliefs hold on every history, and which only the state module touches - so a load that failed part-way (a client that died inside the
@@ -245,9 +249,23 @@ def check_residue(ctx, rule):
     smod = P.module('_remote_pickle.state')
     # ---------------------------------------------------------------- R1 per-thread state
     holder = None
+    shared_defaults = []
     for k, v in RS.class_attrs.items():
         if isinstance(v, ast.Call) and (dotted(v.func) or '') == 'threading.local':
             holder = k
+        elif isinstance(v, ast.Call) and isinstance(v.func, ast.Name):
+            # an instance of a subclass of threading.local is per-thread too - except for what its class body defines: a class attribute is one
+            # object for all threads, and a mutable one (a list used as the frame stack) is shared state again
+            sub = [c for c in P.classes.values() if c.name == v.func.id and any((dotted(b) or '') == 'threading.local' for b in c.node.bases)]
+            if sub:
+                holder = k
+                for name, val in sub[0].class_attrs.items():
+                    if isinstance(val, (ast.List, ast.Dict, ast.Set, ast.Call, ast.ListComp, ast.DictComp)):
+                        shared_defaults.append((sub[0], name, val))
+    for c, name, val in shared_defaults:
+        ctx.check(rule, f'the per-thread state class {c.name} has no mutable class-level default', False, f'{c.name}', f'shared-default-in-thread-local:{name}',
+                  f'`{name} = {norm(val)}` in the body of {c.name} is a single object shared by every thread: as soon as it is emptied in place instead of replaced, concurrent loads on '
+                  'different threads work on one frame stack - one caller\'s objects receive the other\'s patches', where=loc_cls(c, val))
     any_holder = [k for k in RS.class_attrs if 'active' in k or 'context' in k.lower()]
     ctx.check(rule, 'the restore state lives in a threading.local()', holder is not None, 'RemoteState', 'state-not-thread-local:' + ','.join(
         f'{k}={norm(RS.class_attrs[k])}' for k in any_holder), 'the restore stack is not per-thread: concurrent loads on several threads corrupt each other\'s frames',
